@@ -324,6 +324,13 @@ def run_case(asm, acc, case):
             if len(names) > 1:
                 preseed = {'labels': {n: 2 * prng.randrange(0, 5000) for n in names}}
                 acc['ctr']['programs_with_a_leftover_label_table'] += 1
+        if preseed is None and extern is None and items and case['idx'] % 9 == 5:
+            # a caller that never passes tables, after an earlier build (by such a caller too) in which this program's label names were constants
+            names = list(dict.fromkeys(it['name'] for it in items if it['k'] == 'label'))
+            prng = random.Random('c05-earlier-%s-%d' % (case['kind'], case['idx']))
+            if names:
+                preseed = {'notables': True, 'earlier': ''.join('%s = %d\n' % (n, 4 * prng.randrange(1, 500)) for n in names) + 'nop\n'}
+                acc['ctr']['programs_built_without_tables_after_an_earlier_build'] += 1
         ex = progcheck.examine(asm, items, compress, seed='%s-%d' % (case['kind'], case['idx']), nregs=case.get('nregs', 5), lines=lines, preseed=preseed, extern=extern)
         if extern and ex.ok and any(ex.labels_reported.get(k) != v for k, v in extern.items()):
             core.add_viol(acc, 'program %r (compress=%s): the caller\'s external symbol %r came back as %r' % (
